@@ -158,6 +158,11 @@ _vbi_pfc_demux_decode		(vbi_pfc_demux *	dx,
 			col = bp + 4; /* 2 pmag, 1 bp, 1 bs */
 			bs = vbi_unham8 (buffer[col - 1]);
 		} else {
+			if (col >= 42) {
+				/* The block ended with this packet. */
+				return TRUE;
+			}
+
 			while (FILLER_BYTE ==
 			       (bs = vbi_unham8 (buffer[col++]))) {
 				if (col >= 42) {
